@@ -81,7 +81,7 @@ class Ints(Driver):
 
     def __init__(self, tier, seed):
         Driver.__init__(self, tier, seed)
-        self.dense = 1 << 17 if tier == "quick" else 1 << 21
+        self.dense = 1 << 19 if tier == "quick" else 1 << 22
         self.kmax = 80
         self.block = 4096
         self.bound = dict(dense="every v with |v| < 2^%d" % (self.dense.bit_length() - 1), powers="v = +-2^k + d, k <= %d, d in -2..2" % self.kmax)
@@ -149,7 +149,7 @@ class Encodings(Driver):
     def __init__(self, tier, seed):
         Driver.__init__(self, tier, seed)
         self.four = [a + b for a in self.PREFIXES for b in self.PREFIXES]
-        self.three = list(self.PREFIXES) if tier == "quick" else ["%02x" % x for x in range(256)]
+        self.three = ["00", "01", "02", "10", "7f", "80", "81", "fe", "ff"] if tier == "quick" else ["%02x" % x for x in range(256)]
         self.bound = dict(all_lengths="every byte string of length <= 2",
                           three="prefix in %s x all 65536 two-byte tails" % (self.three if tier == "quick" else "all 256",),
                           four="prefix in %s x all 65536 two-byte tails" % (self.four,),
@@ -267,12 +267,13 @@ class Pushes(Driver):
 
     def __init__(self, tier, seed):
         Driver.__init__(self, tier, seed)
-        self.lengths = list(range(0, 601)) + list(BIG)
+        self.lengths = list(range(0, 1101)) + list(range(65000, 65601)) + [70000]
+        self.every = []
         if tier == "thorough":
-            self.lengths = list(range(0, 1101)) + list(range(65000, 65540)) + [70000, 100000]
+            self.lengths += [100000]
+            self.every = [L for L in range(0, 70001) if L not in set(self.lengths)]      # one content only
         self.fills = ["aa", SEQ32, seed_bytes(seed, "C12.push.fill", 32).hex()]
-        self.bound = dict(lengths="0..%d, %s" % (600 if tier == "quick" else 1100, "65534..65537, 70000" if tier == "quick"
-                                                 else "65000..65539, 70000, 100000"),
+        self.bound = dict(lengths="three contents: 0..1100, 65000..65600, 70000%s" % ("" if tier == "quick" else ", 100000; one content: every length 0..70000"),
                           contents=["aa..", "00 01 02 .. 1f repeated", "seed block repeated"], one_byte_payloads="all 256",
                           forms="compile_push_data + every explicit form that can hold the length")
 
@@ -284,6 +285,8 @@ class Pushes(Driver):
                 if L <= 1 and f != self.fills[0]:
                     continue
                 yield dict(len=L, fill=f)
+        for L in self.every:
+            yield dict(len=L, fill="aa")
 
     def execute(self, unit):
         for form in ["compile"] + forms_for(unit["len"]):
@@ -581,9 +584,11 @@ class Assembler(Driver):
         self.reduced = ["op:00", "op:4f", "op:51", "op:60", "op:61", "op:63", "op:68", "op:6a", "op:76", "op:87", "op:a9", "op:ac", "op:ae",
                         "op:b1", "op:b2", "op:b9", "op:ff", "push:1:00", "push:1:11", "push:2:aa", "push:20:" + SEQ32, "push:75:aa", "push:76:aa",
                         "push:255:aa", "push:256:aa"]
+        if tier == "thorough":
+            self.reduced = self.ops + [t for t in self.pushes if int(t.split(":")[1]) <= 257]
         self.bound = dict(opcode_bytes=len(self.ops), pushes=self.pushes, names=len(self.names),
-                          scripts="all 256 single bytes; all 1- and 2-token scripts; 3-token scripts over %d tokens%s; name singles and pairs"
-                                  % (len(self.reduced), "" if tier == "thorough" else " (thorough only)"))
+                          scripts="all 256 single bytes; all 1- and 2-token scripts; all 3-token scripts over %d tokens; name singles and pairs"
+                                  % len(self.reduced))
 
     def units(self):
         yield dict(fam="bytes")
@@ -594,10 +599,9 @@ class Assembler(Driver):
         yield dict(fam="name1")
         for nm in self.names:
             yield dict(fam="name2", first=nm)
-        if self.tier == "thorough":
-            for a in self.reduced:
-                for b in self.reduced:
-                    yield dict(fam="three", first=a, second=b)
+        for a in self.reduced:
+            for b in self.reduced:
+                yield dict(fam="three", first=a, second=b)
 
     def execute(self, unit):
         fam = unit["fam"]
@@ -683,7 +687,7 @@ class Assembler(Driver):
 
 DRIVERS = [Ints, Encodings, Pushes, Truncations, Scripts, Assembler]
 ASSUMPTIONS = [
-    "integers: every |v| < 2^17 (thorough 2^21) and +-2^k+d for k <= 80; larger integers share the same byte-loop and are not enumerated",
+    "integers: every |v| < 2^19 (thorough 2^22) and +-2^k+d for k <= 80; larger integers share the same byte-loop and are not enumerated",
     "candidate encodings: all of length <= 2 (thorough <= 3); longer ones by prefix families and boundary bodies, not all enumerated",
     "the consensus minimal-push rule is Bitcoin Core's CheckMinimalPush (vf.ref.scriptnum.check_minimal_push, bound to the "
     "MINIMALDATA vectors of tests/btc/data/script_tests.json); pycoin's verify_minimal_data is required to give the same "
@@ -691,7 +695,7 @@ ASSUMPTIONS = [
     "checked under its own clause tag nonminimal-push-accepted)",
     "a truncated push counts as reported when get_opcode returns is_ok False / data None; under verify_minimal_data a ScriptError is also a report",
     "known opcodes = the opcode bytes Bitcoin Core names before taproot (0x00, 0x4f..0xb9, 0xff); the name<->byte values themselves are only recorded (class value-differs-from-core), script evaluation is C03",
-    "data lengths: 0..600 (thorough 0..1100), the 64 KiB boundary and 70000/100000; three contents per length",
+    "data lengths: 0..1100, 65000..65600, 70000 with three contents (thorough: every length 0..70000 with one content, and 100000)",
 ]
 
 
